@@ -103,7 +103,7 @@ def run(ctx):
     store = None
     for c in q.calls(addm):
         if isinstance(c.func, ast.Attribute) and c.func.attr in ("append", "insert", "add") and c.args and isinstance(c.args[-1], ast.Name) and c.args[-1].id in lp:
-            store = q.self_attr_root(c.func.value)
+            store = q.root_in(addm, c.func.value)
     if store is None:
         for c in q.calls(addm):
             if isinstance(c.func, ast.Attribute) and c.func.attr == "setdefault" and q.self_attr_root(c.func.value):
